@@ -48,7 +48,7 @@ Lemma select_sim : forall j, FLn p q j ->
   forall k lbl side T d cls G rho th st cls' st' A e ae K sg vs avs,
   inv p G rho th st ->
   clauses_match side T cls (ctxtors d) = None -> check_bodies data codata defs G cls = None ->
-  ub_clauses (cids G) cls = true -> ib_clauses m0 cls = true ->
+  ub_clauses (cids G) cls = true -> ib_clauses m0 cls = true -> nc_clauses (cvars G) cls = true ->
   shrink_clauses (shrink_stmt k (mksenv D codata lbl)) (mksenv D codata lbl) (rn_clauses rho cls) st = SOk (cls', st') ->
   pfresh_cls A cls' = true -> lifted_in q st' ->
   erel p q j (fun x => occ_clauses x cls) (fun x => th (rho x)) A G e ae ->
@@ -56,7 +56,7 @@ Lemma select_sim : forall j, FLn p q j ->
   exists cl e1, find_clause (arn_cls th cls') K = Some cl /\ bind (vars (cl_ctx cl)) avs = Some e1 /\
      beh p q j (CoreSem.select (fs2c_clauses cls) e K vs) (e1 ++ ae) (cl_body cl).
 Proof.
-  intros j FL k lbl side T d cls G rho th st cls' st' A e ae K sg vs avs Hinv Hcm Hcb Hub Hib Hsh Hpf Hlift He Hx Hv.
+  intros j FL k lbl side T d cls G rho th st cls' st' A e ae K sg vs avs Hinv Hcm Hcb Hub Hib Hnc Hsh Hpf Hlift He Hx Hv.
   destruct (clauses_match_find _ _ _ _ _ _ Hcm Hx) as (cl0 & Hf & Hn & Hps).
   assert (Hin : In cl0 cls) by (apply find_some in Hf; tauto).
   destruct (ib_clauses_in p _ _ Hib Hin) as [Hibc Hibb].
@@ -95,6 +95,7 @@ Proof.
   - apply inv_push_list; auto. eapply inv_st_mono; eauto.
   - apply (check_bodies_in p _ _ (FsClause c0 x0 ctx0 b0) Hcb Hin).
   - rewrite <- ub_cids_app. exact Hubb.
+  - unfold cvars. rewrite map_app. apply (nc_clauses_in _ _ (FsClause c0 x0 ctx0 b0) Hnc Hin).
   - eapply lifted_in_mono; eauto.
 Qed.
 
@@ -121,6 +122,7 @@ Proof.
   rewrite Hd in Hd0. inv_keep Hd0.
   cbn [CoreSem.interact_val] in Hrun.
   destruct (select_sim n (IH n ltac:(lia)) k lbl CCns T d cls G rho th st cls' st' A e ae K sg vs avs) as (cl & e1 & Hf & Hb & Hbeh); auto.
+  { eapply nc_cut_case_r; eauto. }
   { eapply erel_weaken; [exact He | lia | intros y Hy; occx | apply incl_refl]. }
   { eapply vrels_le; [|exact Hvs]. lia. }
   destruct (Hbeh _ _ Hrun Hg) as [m Hm].
@@ -148,6 +150,7 @@ Proof.
   rewrite Hd in Hd0. inv_keep Hd0.
   cbn [CoreSem.cut_with_k CoreSem.interact_val] in Hrun.
   destruct (select_sim n (IH n ltac:(lia)) k lbl CPrd T d cls G rho th st cls' st' A e ae K sg vs avs) as (cl & e1 & Hf & Hb & Hbeh); auto.
+  { eapply nc_cut_case_l; eauto. }
   { eapply erel_weaken; [exact He | lia | intros y Hy; cbn [occurs]; left; apply occ_term_xcase; assumption | apply incl_refl]. }
   { eapply vrels_le; [|exact Hvs]. lia. }
   destruct (Hbeh _ _ Hrun Hg) as [m Hm].
@@ -185,7 +188,8 @@ Proof.
   { apply VR_clo. apply cloR_intro; [exact Hco|]. intros j Hj tag fs sr (_ & d1 & sg & args & Hd1 & Hx & Hvs & ->).
     rewrite Hd in Hd1. inv_keep Hd1. unfold kv. cbn [CoreSem.interact_val]. apply relsV_vrelsF in Hvs.
     eapply (select_sim j (IH j ltac:(lia)) k lbl CCns T d cls G rho th st cls' st1 A e ae tag sg args fs); eauto.
-    eapply erel_weaken; [exact He | lia | intros y Hy; occx | apply incl_refl]. }
+    - eapply nc_cut_case_r; eauto.
+    - eapply erel_weaken; [exact He | lia | intros y Hy; occx | apply incl_refl]. }
   assert (He' : erel p q n (fun y => occurs y s') (fun y => th (rho y)) (idn a :: A) (mkcb a CCns (CDecl T) :: G)
                   ((a, BK kv) :: e) ((a, VClo T (arn_cls th cls') ae) :: ae)).
   { eapply erel_push with (pi := fun y => th (rho y)) (need := fun y => occurs y (FsCut (FsMu c1 a s' t1) (CDecl T) (FsXCase c2 cls t2))).
@@ -194,7 +198,7 @@ Proof.
     - intros b0 _ Hb. split; [occ | reflexivity].
     - rewrite (inv_self p _ _ _ _ _ Hinv Hua Hia). reflexivity.
     - exact Hclo. }
-  destruct (IH n ltac:(lia) s' k lbl _ rho th st1 next st' _ _ _ (inv_push p _ _ _ _ _ CCns (CDecl T) Hinv1 Hua Hia) Hcs Hubs Hibs E2 Hpn Hlift He' _ _ Hrun' Hg) as [m Hm].
+  destruct (IH n ltac:(lia) s' k lbl _ rho th st1 next st' _ _ _ (inv_push p _ _ _ _ _ CCns (CDecl T) Hinv1 Hua Hia) Hcs Hubs Hibs (nc_cut_mu_l _ _ _ _ _ _ _ Hnc) E2 Hpn Hlift He' _ _ Hrun' Hg) as [m Hm].
   exists (S m). rewrite arn_create. cbn [exec_named shrink_ty ty_name shrink_identifier]. exact Hm.
 Qed.
 
@@ -226,7 +230,8 @@ Proof.
   { apply VR_clo. apply cloR_intro; [exact Hco|]. intros j Hj tag fs sr (_ & d1 & sg & args & Hd1 & Hx & Hvs & ->).
     rewrite Hd in Hd1. inv_keep Hd1. unfold pv. cbn [CoreSem.interact_val]. apply relsV_vrelsF in Hvs.
     eapply (select_sim j (IH j ltac:(lia)) k lbl CPrd T d cls G rho th st cls' st1 A e ae tag sg args fs); eauto.
-    eapply erel_weaken; [exact He | lia | intros y Hy; cbn [occurs]; left; apply occ_term_xcase; assumption | apply incl_refl]. }
+    - eapply nc_cut_case_l; eauto.
+    - eapply erel_weaken; [exact He | lia | intros y Hy; cbn [occurs]; left; apply occ_term_xcase; assumption | apply incl_refl]. }
   assert (He' : erel p q n (fun y => occurs y s') (fun y => th (rho y)) (idn x :: A) (mkcb x CPrd (CDecl T) :: G)
                   ((x, BP pv) :: e) ((x, VClo T (arn_cls th cls') ae) :: ae)).
   { eapply erel_push with (pi := fun y => th (rho y)) (need := fun y => occurs y (FsCut (FsXCase c1 cls t1) (CDecl T) (FsMu c2 x s' t2))).
@@ -235,7 +240,7 @@ Proof.
     - intros b0 _ Hb. split; [occ | reflexivity].
     - rewrite (inv_self p _ _ _ _ _ Hinv Hux Hix). reflexivity.
     - exact Hclo. }
-  destruct (IH n ltac:(lia) s' k lbl _ rho th st1 next st' _ _ _ (inv_push p _ _ _ _ _ CPrd (CDecl T) Hinv1 Hux Hix) Hcs Hubs Hibs E2 Hpn Hlift He' _ _ Hrun Hg) as [m Hm].
+  destruct (IH n ltac:(lia) s' k lbl _ rho th st1 next st' _ _ _ (inv_push p _ _ _ _ _ CPrd (CDecl T) Hinv1 Hux Hix) Hcs Hubs Hibs (nc_cut_mu_r _ _ _ _ _ _ _ Hnc) E2 Hpn Hlift He' _ _ Hrun Hg) as [m Hm].
   exists (S m). rewrite arn_create. cbn [exec_named shrink_ty ty_name shrink_identifier]. exact Hm.
 Qed.
 End CasesC.
